@@ -15,6 +15,8 @@ pub struct StackCaps<S: Spec, C> {
     pub from_iter: Option<fn(Vec<S::V>) -> FS<S, C>>,
     /// (Debug of the stack, Debug of the list of its own get(i) items)
     pub debug: Option<fn(&FS<S, C>) -> (String, String)>,
+    /// FlatStack::reserve_items with references to the values
+    pub reserve_items: Option<fn(&mut FS<S, C>, &[S::V])>,
     pub clone: Option<fn(&FS<S, C>) -> FS<S, C>>,
     pub clone_from: Option<fn(&mut FS<S, C>, &FS<S, C>)>,
     pub ser: Option<fn(&FS<S, C>) -> Result<String, String>>,
@@ -35,6 +37,7 @@ impl<S: Spec, C> Clone for StackCaps<S, C> {
             extend: self.extend,
             from_iter: self.from_iter,
             debug: self.debug,
+            reserve_items: self.reserve_items,
             clone: self.clone,
             clone_from: self.clone_from,
             ser: self.ser,
@@ -55,6 +58,7 @@ impl<S: Spec, C: flatcontainer::impls::index::IndexContainer<Idx<S>> + 'static> 
             extend: None,
             from_iter: None,
             debug: None,
+            reserve_items: None,
             clone: None,
             clone_from: None,
             ser: None,
@@ -78,6 +82,13 @@ impl<S: Spec, C: flatcontainer::impls::index::IndexContainer<Idx<S>> + 'static> 
         for<'a> S::R: Push<&'a S::V>,
     {
         self.copy_ref = Some(|s, v| s.copy(v));
+        self
+    }
+    pub fn reserving(mut self) -> Self
+    where
+        for<'a> S::R: flatcontainer::ReserveItems<&'a S::V>,
+    {
+        self.reserve_items = Some(|s, batch| s.reserve_items(batch.iter()));
         self
     }
     pub fn debug(mut self) -> Self
@@ -132,6 +143,8 @@ enum OpDef {
     FromIter,
     Clear,
     Reserve(usize),
+    ReserveItems,
+    ReserveRegions(u8),
     CloneReplace,
     CloneFromReplace,
     MergeCapacity(u8),
@@ -183,6 +196,13 @@ impl<S: Spec, C: flatcontainer::impls::index::IndexContainer<Idx<S>> + IdxModel<
         ops.push(OpDef::Clear);
         ops.push(OpDef::Reserve(0));
         ops.push(OpDef::Reserve(5));
+        if caps.reserve_items.is_some() {
+            ops.push(OpDef::ReserveItems);
+        }
+        if e.has_reserve_regions {
+            ops.push(OpDef::ReserveRegions(0));
+            ops.push(OpDef::ReserveRegions(1));
+        }
         if caps.clone.is_some() && oracle == StackOracle::Sequence {
             ops.push(OpDef::CloneReplace);
             ops.push(OpDef::CloneFromReplace);
@@ -361,6 +381,8 @@ impl<S: Spec, C: flatcontainer::impls::index::IndexContainer<Idx<S>> + IdxModel<
             OpDef::FromIter => "replace by from_iter(current contents)".into(),
             OpDef::Clear => "clear()".into(),
             OpDef::Reserve(n) => format!("reserve({n})"),
+            OpDef::ReserveItems => "reserve_items(the first two values)".into(),
+            OpDef::ReserveRegions(k) => format!("reserve_regions([{}])", if *k == 0 { "an empty region" } else { "a region holding the values in reverse" }),
             OpDef::CloneReplace => "replace by clone()".into(),
             OpDef::CloneFromReplace => "replace by clone_from() into a pre-filled stack".into(),
             OpDef::MergeCapacity(k) => format!("replace by merge_capacity([{}])", if *k == 0 { "" } else { "self" }),
@@ -455,6 +477,32 @@ impl<S: Spec, C: flatcontainer::impls::index::IndexContainer<Idx<S>> + IdxModel<
                 let st = &mut self.st;
                 if let Err(p) = guard(|| st.reserve(n)) {
                     return Step::Violation(format!("reserve({n}) panicked: {p}"));
+                }
+            }
+            OpDef::ReserveItems => {
+                let f = self.caps.reserve_items.unwrap();
+                let batch: Vec<S::V> = self.values.iter().take(2).cloned().collect();
+                let st = &mut self.st;
+                if let Err(p) = guard(|| f(st, &batch)) {
+                    if refuse(&p) {
+                        return Step::Refused(p);
+                    }
+                    return Step::Violation(format!("reserve_items panicked: {p}"));
+                }
+            }
+            OpDef::ReserveRegions(k) => {
+                let mut src: S::R = Default::default();
+                if k == 1 {
+                    for v in self.values.iter().rev() {
+                        let _ = S::canon_push(&mut src, v);
+                    }
+                }
+                let st = &mut self.st;
+                if let Err(p) = guard(|| st.reserve_regions(std::iter::once(&src))) {
+                    if refuse(&p) {
+                        return Step::Refused(p);
+                    }
+                    return Step::Violation(format!("reserve_regions panicked: {p}"));
                 }
             }
             OpDef::CloneReplace => {
